@@ -571,7 +571,7 @@ fn relevant(sig: &str) -> bool {
     let c13 = ["transfer.ring.", "transfer.resume.", "transfer.reconnect.", "transfer.advance."].iter().any(|p| sig.starts_with(p));
     // concurrent outcomes concern both properties; "a resume is accepted only before cancellation" is a clause
     // of C13 as well as of C11
-    if sig.starts_with("transfer.conc.") || sig.starts_with("transfer.reuse.") || sig == "transfer.cancel.resume_accepted" {
+    if sig.starts_with("transfer.conc.") || sig.starts_with("transfer.reuse.") || sig == "transfer.call_never_returned" || sig == "transfer.cancel.resume_accepted" {
         return true;
     }
     if RING_FAMILY.load(std::sync::atomic::Ordering::Relaxed) { c13 } else { !c13 }
@@ -750,6 +750,123 @@ fn oracles(c: &Ctl, op: &Op, ret: &Ret, before: &Option<Snap>, after: &Option<Sn
     }
 }
 
+
+// ------------------------------------------------------------------------------------------
+// (o) liveness of the check itself: every stretch of work on the object under test (one op with its snapshots,
+// one enumerated sequence, one race) is bracketed by `watch_begin` / `watch_end`; a monitor thread gives up on a
+// stretch that has been running for `CALL_GUARD` (no call of this API may take that long: the waits are asked for
+// at most `WAIT_GUARD`), writes the oracle failure `transfer.call_never_returned` with the op lines that lead
+// there, and ends the process — the thread inside the call cannot be got back.
+// ------------------------------------------------------------------------------------------
+const CALL_GUARD: Duration = Duration::from_secs(30);
+const WATCH_SLOTS: usize = 16;
+
+struct WatchSlot {
+    /// milliseconds since `WATCH_BASE` at which the current stretch began, + 1 (0 = idle)
+    since: std::sync::atomic::AtomicU64,
+    /// the op lines that reproduce the stretch, or a description the monitor expands: `@hist` = the op lines of
+    /// the current random history / replay (`HIST_MIRROR`), `@enum <domain>` = the enumerated sequence in `path`
+    what: std::sync::Mutex<Vec<String>>,
+    path: [std::sync::atomic::AtomicU8; 12],
+    plen: std::sync::atomic::AtomicU8,
+}
+static WATCH: [WatchSlot; WATCH_SLOTS] = [const {
+    WatchSlot {
+        since: std::sync::atomic::AtomicU64::new(0),
+        what: std::sync::Mutex::new(Vec::new()),
+        path: [const { std::sync::atomic::AtomicU8::new(0) }; 12],
+        plen: std::sync::atomic::AtomicU8::new(0),
+    }
+}; WATCH_SLOTS];
+static HIST_MIRROR: std::sync::Mutex<Vec<String>> = std::sync::Mutex::new(Vec::new());
+
+fn watch_set_path(path: &[usize], last: usize) {
+    use std::sync::atomic::Ordering::Relaxed;
+    WATCH_MINE.with(|i| {
+        let sl = &WATCH[*i];
+        let mut n = 0;
+        for &k in path.iter().chain(std::iter::once(&last)).take(12) {
+            sl.path[n].store(k as u8, Relaxed);
+            n += 1;
+        }
+        sl.plen.store(n as u8, Relaxed);
+    });
+}
+
+fn watch_expand(slot: &WatchSlot) -> Vec<String> {
+    let what = slot.what.lock().map(|g| g.clone()).unwrap_or_default();
+    match what.first().map(|s| s.as_str()) {
+        Some("@hist") => HIST_MIRROR.lock().map(|g| g.clone()).unwrap_or_default(),
+        Some(t) if t.starts_with("@enum ") => {
+            let dom = &t[6..];
+            let mut ops = vec![format!("mode {}", mode_name())];
+            if let Some((window, cap, alpha)) = domain(dom) {
+                ops.push(format!("new 0 {} {}", window, cap));
+                let mut g = Ghost::default();
+                let n = slot.plen.load(std::sync::atomic::Ordering::Relaxed) as usize;
+                for k in 0..n {
+                    let j = slot.path[k].load(std::sync::atomic::Ordering::Relaxed) as usize;
+                    if j < alpha.len() {
+                        ops.push(concrete(&alpha[j], &mut g).line(&format!("{}", k + 1)));
+                    }
+                }
+            }
+            ops
+        }
+        _ => what,
+    }
+}
+static WATCH_NEXT: std::sync::atomic::AtomicUsize = std::sync::atomic::AtomicUsize::new(0);
+static WATCH_BASE: std::sync::OnceLock<Instant> = std::sync::OnceLock::new();
+static WATCH_OUT: std::sync::OnceLock<std::path::PathBuf> = std::sync::OnceLock::new();
+thread_local! {
+    static WATCH_MINE: usize = WATCH_NEXT.fetch_add(1, std::sync::atomic::Ordering::Relaxed) % WATCH_SLOTS;
+}
+
+fn watch_begin(what: impl FnOnce() -> Vec<String>, refresh_what: bool) {
+    let base = *WATCH_BASE.get_or_init(Instant::now);
+    WATCH_MINE.with(|i| {
+        if refresh_what {
+            *WATCH[*i].what.lock().unwrap() = what();
+        }
+        WATCH[*i].since.store(base.elapsed().as_millis() as u64 + 1, std::sync::atomic::Ordering::Release);
+    });
+}
+fn watch_end() {
+    WATCH_MINE.with(|i| WATCH[*i].since.store(0, std::sync::atomic::Ordering::Release));
+}
+
+fn start_call_monitor(out_dir: &std::path::Path) {
+    let _ = WATCH_OUT.set(out_dir.to_path_buf());
+    let base = *WATCH_BASE.get_or_init(Instant::now);
+    std::thread::spawn(move || loop {
+        std::thread::sleep(Duration::from_millis(250));
+        let now = base.elapsed().as_millis() as u64 + 1;
+        for slot in WATCH.iter() {
+            let since = slot.since.load(std::sync::atomic::Ordering::Acquire);
+            if since != 0 && now.saturating_sub(since) > CALL_GUARD.as_millis() as u64 {
+                let ops = watch_expand(slot);
+                let v = serde_json::json!({
+                    "sig": "transfer.call_never_returned",
+                    "detail": format!("a call into TransferControl had not returned after {} s (every call of this API is a short critical section; the waits were asked for at most {} s); the last op line is the call", CALL_GUARD.as_secs(), WAIT_GUARD.as_secs()),
+                    "ops": ops,
+                });
+                if let Some(dir) = WATCH_OUT.get() {
+                    use std::io::Write;
+                    if let Ok(mut f) = std::fs::OpenOptions::new().append(true).create(true).open(dir.join("oracle.txt")) {
+                        let _ = writeln!(f, "{}", v);
+                    }
+                }
+                eprintln!("fam_transfer: a call never returned; giving up on the run");
+                std::process::exit(3);
+            }
+        }
+    });
+}
+
+/// stop generating once a broken tree has shown itself often enough
+const MAX_ORACLE_FAILURES: u64 = 12;
+
 // ------------------------------------------------------------------------------------------
 // executing op lines (random histories and replays)
 // ------------------------------------------------------------------------------------------
@@ -868,6 +985,9 @@ fn exec_line(ex: &mut Exec, out: &mut Out, line: &str) -> (String, bool) {
         ex.hist.clear();
         ex.hist.push(format!("mode {}", mode_name()));
         ex.hist.push(line.to_string());
+        if let Ok(mut m) = HIST_MIRROR.lock() {
+            *m = ex.hist.clone();
+        }
         out.count("op.new");
         return (format!("{} new | {}", idx, show_snap(&ex.ctl.snap())), false);
     }
@@ -878,6 +998,9 @@ fn exec_line(ex: &mut Exec, out: &mut Out, line: &str) -> (String, bool) {
         ex.hist.clear();
         ex.hist.push(format!("mode {}", mode_name()));
         ex.hist.push(line.to_string());
+        if let Ok(mut m) = HIST_MIRROR.lock() {
+            *m = ex.hist.clone();
+        }
         out.count("op.newdef");
         return (format!("{} new | {}", idx, show_snap(&ex.ctl.snap())), false);
     }
@@ -885,8 +1008,13 @@ fn exec_line(ex: &mut Exec, out: &mut Out, line: &str) -> (String, bool) {
     ex.hist.push(line.to_string());
     let mut fails = vec![];
     // reuse oracle: the same call on a fresh object brought to the same visible state must do the same
+    if let Ok(mut m) = HIST_MIRROR.lock() {
+        m.push(line.to_string());
+    }
+    watch_begin(|| vec!["@hist".to_string()], true);
     let twin = if ex.twin_now { ex.ctl.snap().and_then(|b| twin_of(&ex.ctl, &b)) } else { None };
     let (ret, after, changed, stamps) = do_op(&mut ex.ctl, &op, None, &mut fails);
+    watch_end();
     if let Some(tw) = twin {
         out.count("reuse.twin_checked");
         let tret = tw.call(&op);
@@ -1040,10 +1168,17 @@ impl Enum {
     /// Execute sequence `path ++ [i]` (`before` = what the object showed after `path`);
     /// returns the chained digest and the snapshot after.
     fn node(&mut self, path: &[usize], i: usize, h: u64, before: &Option<Snap>) -> (u64, Option<Snap>) {
+        watch_set_path(path, i);
+        watch_begin(Vec::new, false);
         let (mut ctl, mut g) = self.build(path);
         let op = concrete(&self.alpha[i], &mut g);
         let mut fails = vec![];
         let (ret, after, changed, stamps) = do_op(&mut ctl, &op, Some(before), &mut fails);
+        watch_end();
+        // a broken tree has shown itself: keep the first few failing sequences, skip the rest of this subtree's work
+        if self.fails.len() >= MAX_ORACLE_FAILURES as usize {
+            fails.clear();
+        }
         if !fails.is_empty() {
             // the failing sequence as plain op lines (a replay executes them one by one)
             let mut ops = vec![format!("mode {}", mode_name()), format!("new 0 {} {}", self.window, self.cap)];
@@ -1065,6 +1200,9 @@ impl Enum {
 
     fn fold_sub(&mut self, path: &mut Vec<usize>, h: u64, snap: &Option<Snap>, mut acc: u64) -> u64 {
         for i in 0..self.alpha.len() {
+            if self.fails.len() >= MAX_ORACLE_FAILURES as usize {
+                return acc;
+            }
             let (h2, after) = self.node(path, i, h, snap);
             acc = mix(acc, h2);
             if path.len() + 1 < self.len {
@@ -1079,6 +1217,9 @@ impl Enum {
     /// children `range` of the sequence `path`
     fn dfs(&mut self, path: &mut Vec<usize>, h: u64, snap: &Option<Snap>, range: std::ops::Range<usize>) {
         for i in range {
+            if self.fails.len() >= MAX_ORACLE_FAILURES as usize {
+                return;
+            }
             let (h2, after) = self.node(path, i, h, snap);
             path.push(i);
             let name: String = path.iter().map(|k| format!(".{}", k)).collect();
@@ -1116,6 +1257,7 @@ fn exec_enum(out: &mut Out, line: &str) {
                 let root = root.clone();
                 let range = (t * per).min(n)..((t + 1) * per).min(n);
                 sc.spawn(move || {
+                    WATCH_MINE.with(|i| *WATCH[*i].what.lock().unwrap() = vec![format!("@enum {}", e.dom)]);
                     e.dfs(&mut vec![], FNV_BASIS, &root, range);
                     e
                 })
@@ -1438,7 +1580,7 @@ fn run_conc(window: u64, cap: u64, setup: &[COp], progs: &[Vec<COp>], reps: u64,
         DROP_SPIN_NS.store(drop_ns, std::sync::atomic::Ordering::Relaxed);
         *sh.slot.lock().unwrap() = Some(tc.clone());
         sh.gen.store(rep, Release);
-        if !spin_until(|| sh.done.load(Acquire) >= rep * t, Duration::from_secs(60)) {
+        if !spin_until(|| sh.done.load(Acquire) >= rep * t, Duration::from_secs(20)) {
             res.stuck = true;
             sh.quit.store(true, Release);
             DROP_SPIN_NS.store(0, std::sync::atomic::Ordering::Relaxed);
@@ -1496,7 +1638,7 @@ fn exec_conc(out: &mut Out, line: &str, cfg: &ConcCfg) {
     let head = w[..end].join(" ");
     let res = run_conc(window, cap, &setup, &progs, cfg.reps, cfg.budget, cfg.drop_ns);
     if res.stuck {
-        out.oracle_fail("transfer.conc.stuck", "concurrent callers did not finish within 60 s", &[head.clone()]);
+        out.oracle_fail("transfer.conc.stuck", "concurrent callers did not finish within 20 s", &[head.clone()]);
         out.case(&head, &format!("{} conc STUCK", idx), false);
         return;
     }
@@ -1818,6 +1960,8 @@ fn watchdog_scenario() -> (String, Vec<Fail>) {
 // first cancel reason.
 // ------------------------------------------------------------------------------------------
 static SINK_CALLS: std::sync::atomic::AtomicU64 = std::sync::atomic::AtomicU64::new(0);
+static THOROUGH: std::sync::atomic::AtomicBool = std::sync::atomic::AtomicBool::new(false);
+static SEARCH_DEADLINE: std::sync::OnceLock<Instant> = std::sync::OnceLock::new();
 
 struct OddSink {
     /// 0 String panic, 1 &'static str panic, 2 non-string payload, 3 slow (30 ms), 4 calls back into the control
@@ -1981,6 +2125,122 @@ fn sinks_scenario() -> (Vec<(String, u64)>, Vec<Fail>) {
             }
         }
     }
+    // (s) + (u) waits that really park for longer than any plausible internal timer (300 ms, 600 ms, 1.1 s; thorough
+    // also 2.5 s, 5.5 s, 11 s), all stalls side by side: (1) a caller alone on a full window / with nothing pending
+    // can only get Timeout, and nothing changes; (2) the documented loop with blocking waits against a receiver that
+    // stalls that long before every ACK (and sends foreign / stale ones meanwhile): the clauses of C11 hold on that
+    // path too — acked <= sent, never more than one window (or one chunk) unacknowledged, the final cancel is
+    // reported. Whether a parked wait wakes up in time is C12's business: a Timeout in (2) is only counted.
+    {
+        let stalls: Vec<u64> = if THOROUGH.load(std::sync::atomic::Ordering::Relaxed) { vec![300, 600, 1100, 2500, 5500, 11_000] } else { vec![300, 600, 1100] };
+        let (tx, rx) = std::sync::mpsc::channel::<(Vec<String>, Vec<Fail>)>();
+        for ms in stalls.iter().copied() {
+            let tx = tx.clone();
+            std::thread::spawn(move || {
+                let mut counts: Vec<String> = vec![];
+                let mut fails: Vec<Fail> = vec![];
+                let stall = Duration::from_millis(ms);
+                let r = catch(|| {
+                    // (1) alone
+                    let tc = TransferControl::with_replay_capacity(8, 64);
+                    tc.push_replay(0, 8, false, vec![7; 8]);
+                    tc.record_sent(8);
+                    match tc.wait_for_credit(1, Instant::now() + stall) {
+                        Ok(()) => fails.push(Fail { sig: "transfer.credit.overgrant".into(), detail: format!("credit(1) granted to a caller parked for up to {} ms with in-flight 8 window 8 and nobody else touching the transfer", ms) }),
+                        Err(repe::CreditError::Cancelled(r)) => fails.push(Fail { sig: "transfer.cancel.wait_wrong_reason".into(), detail: format!("a credit wait on a transfer nobody cancelled reported Cancelled({:?})", r) }),
+                        Err(repe::CreditError::Timeout) => counts.push(format!("stall.{}ms.credit_timeout", ms)),
+                    }
+                    match tc.wait_for_reconnect(stall) {
+                        ReconnectOutcome::Timeout => counts.push(format!("stall.{}ms.reconnect_timeout", ms)),
+                        ReconnectOutcome::ResumeReady(p) => fails.push(Fail { sig: "transfer.reconnect.stale_or_double_delivery".into(), detail: format!("no resume pending, a reconnect wait parked for {} ms returned ResumeReady({})", ms, p.resume_at_offset) }),
+                        ReconnectOutcome::Cancelled(r) => fails.push(Fail { sig: "transfer.cancel.wait_wrong_reason".into(), detail: format!("a reconnect wait on a transfer nobody cancelled reported Cancelled({:?})", r) }),
+                    }
+                    let (s1, a1) = tc.offsets();
+                    let ring = tc.replay_chunks_from(0).len();
+                    if (s1, a1) != (8, 0) || tc.is_cancelled() {
+                        fails.push(Fail { sig: "transfer.ack.foreign_or_stale_changed_state".into(), detail: format!("two waits that timed out after {} ms left offsets ({}, {}), cancelled {}", ms, s1, a1, tc.is_cancelled()) });
+                    }
+                    if ring != 1 {
+                        fails.push(Fail { sig: "transfer.ring.empty_after_push".into(), detail: format!("after two waits that timed out ({} ms) the ring holds {} chunks instead of the one pushed", ms, ring) });
+                    }
+                    // (2) the documented loop, blocking, against a stalling receiver
+                    let tc = TransferControl::with_replay_capacity(8, 64);
+                    let rcv = tc.clone();
+                    let stop = Arc::new(std::sync::atomic::AtomicBool::new(false));
+                    let stop2 = stop.clone();
+                    let receiver = std::thread::spawn(move || {
+                        while !stop2.load(std::sync::atomic::Ordering::Acquire) {
+                            // stalled, but not silent: stale and foreign ACKs keep coming
+                            let t0 = Instant::now();
+                            while t0.elapsed() < stall && !stop2.load(std::sync::atomic::Ordering::Acquire) {
+                                rcv.record_ack(7, u64::MAX);
+                                rcv.record_ack(0, 0);
+                                std::thread::sleep(Duration::from_millis(5));
+                            }
+                            let (sent, _) = rcv.offsets();
+                            rcv.record_ack(0, sent);
+                        }
+                    });
+                    let mut sent = 0u64;
+                    for _chunk in 0..6 {
+                        let len = 4u64;
+                        match tc.wait_for_credit(len, Instant::now() + stall * 3 + Duration::from_secs(10)) {
+                            Ok(()) => {}
+                            Err(repe::CreditError::Timeout) => {
+                                counts.push(format!("stall.{}ms.loop_credit_timeout", ms));
+                                break;
+                            }
+                            Err(repe::CreditError::Cancelled(r)) => {
+                                fails.push(Fail { sig: "transfer.cancel.wait_wrong_reason".into(), detail: format!("the loop's credit wait reported Cancelled({:?}) before anybody cancelled", r) });
+                                break;
+                            }
+                        }
+                        tc.push_replay(sent, len, false, vec![1; len as usize]);
+                        sent += len;
+                        tc.record_sent(sent);
+                        let (s, a) = tc.offsets();
+                        if a > s {
+                            fails.push(Fail { sig: "transfer.inv.acked_gt_sent".into(), detail: format!("blocking loop, receiver stalling {} ms: acked {} > sent {}", ms, a, s) });
+                        }
+                        if s - a.min(s) > 8 {
+                            fails.push(Fail { sig: "transfer.loop.window_exceeded".into(), detail: format!("blocking loop, receiver stalling {} ms: the producer followed the loop but has {} bytes unacknowledged with window 8, chunk 4", ms, s - a.min(s)) });
+                        }
+                    }
+                    counts.push(format!("stall.{}ms.loop_done", ms));
+                    tc.cancel("loop over");
+                    stop.store(true, std::sync::atomic::Ordering::Release);
+                    let _ = receiver.join();
+                    match tc.wait_for_credit(4, Instant::now() + stall) {
+                        Err(repe::CreditError::Cancelled(r)) if r == "loop over" => {}
+                        other => fails.push(Fail { sig: "transfer.cancel.wait_not_reported".into(), detail: format!("after cancel(\"loop over\") the loop's credit wait returned {:?}", other.map_err(|e| e.to_string())) }),
+                    }
+                });
+                if r.is_err() {
+                    counts.push(format!("stall.{}ms.panicked", ms));
+                }
+                let _ = tx.send((counts, fails));
+            });
+        }
+        drop(tx);
+        let limit = Duration::from_millis(stalls.iter().max().copied().unwrap_or(0) * 12 + 30_000);
+        let t0 = Instant::now();
+        let mut got = 0;
+        while got < stalls.len() {
+            match rx.recv_timeout(limit.saturating_sub(t0.elapsed()).max(Duration::from_millis(1))) {
+                Ok((c, f)) => {
+                    for k in c {
+                        count(format!("sinks.{}", k));
+                    }
+                    fails.extend(f);
+                    got += 1;
+                }
+                Err(_) => {
+                    fails.push(Fail { sig: "transfer.call_never_returned".into(), detail: "a blocking-loop / stall scenario did not finish (a wait with a deadline, or a short critical section, never returned)".into() });
+                    break;
+                }
+            }
+        }
+    }
     let sink_calls = SINK_CALLS.load(std::sync::atomic::Ordering::Relaxed);
     // registry: `Default`, a key type with a degenerate Hash, boundary keys, re-use of a key after unregister
     let reg: TransferRegistry<ClashKey> = TransferRegistry::default();
@@ -2030,6 +2290,91 @@ fn exec_watchdog(out: &mut Out, line: &str, res: (String, Vec<Fail>)) {
         out.count(&k);
     }
     out.case(line, &format!("{} {}", idx, res.0), true);
+}
+
+
+// ------------------------------------------------------------------------------------------
+// (n) which public entry points of the anchored file does this harness drive? Read `pub fn` (per `impl`) from
+// src/stream.rs of the tree under test and compare: anything not in DRIVEN and not in NOT_DRIVEN_BECAUSE is put
+// into stats.json (`extra.not_driven`), counted and written to stderr.
+// ------------------------------------------------------------------------------------------
+const DRIVEN: [&str; 27] = [
+    "TransferControl::new", "TransferControl::with_replay_capacity", "TransferControl::set_peer", "TransferControl::peer",
+    "TransferControl::push_replay", "TransferControl::replay_chunks_from", "TransferControl::request_resume",
+    "TransferControl::wait_for_reconnect", "TransferControl::wait_for_credit", "TransferControl::record_sent",
+    "TransferControl::record_ack", "TransferControl::cancel", "TransferControl::is_cancelled", "TransferControl::cancel_reason",
+    "TransferControl::advance_to_file", "TransferControl::timestamps", "TransferControl::offsets",
+    "TransferRegistry::new", "TransferRegistry::register", "TransferRegistry::unregister", "TransferRegistry::get",
+    "TransferRegistry::snapshot", "TransferRegistry::len", "TransferRegistry::is_empty",
+    "ResumeRejection::reason", "::spawn_watchdog", "Default for TransferRegistry::default",
+];
+/// `(entry point, why it is not driven)`
+const NOT_DRIVEN_BECAUSE: [(&str, &str); 0] = [];
+
+fn source_entry_points() -> Vec<String> {
+    let repo = std::env::var("VERIF_REPO").unwrap_or_else(|_| "/repo".into());
+    let text = std::fs::read_to_string(std::path::Path::new(&repo).join("src").join("stream.rs")).unwrap_or_default();
+    let text = text.split("#[cfg(test)]").next().unwrap_or("").to_string();
+    let mut names: Vec<String> = vec![];
+    let mut cur = String::new();
+    for line in text.lines() {
+        let t = line.trim_end();
+        if let Some(rest) = t.strip_prefix("impl") {
+            // `impl X {`, `impl<K: …> X<K> {`, `impl<K> Default for X<K> {`
+            let mut r = rest.trim_start();
+            if r.starts_with('<') {
+                let mut depth = 0;
+                let mut cut = 0;
+                for (i, ch) in r.char_indices() {
+                    if ch == '<' { depth += 1 } else if ch == '>' { depth -= 1; if depth == 0 { cut = i + 1; break } }
+                }
+                r = r[cut..].trim_start();
+            }
+            let head = r.split('{').next().unwrap_or("").trim();
+            let clean = |x: &str| x.split('<').next().unwrap_or("").trim().to_string();
+            cur = match head.split_once(" for ") {
+                Some((tr, ty)) => format!("{} for {}", clean(tr), clean(ty)),
+                None => clean(head),
+            };
+            continue;
+        }
+        if t.starts_with('}') || t.starts_with("pub fn ") || t.starts_with("fn ") {
+            // back at top level
+            if !t.starts_with("pub fn ") { if t.starts_with('}') { cur.clear(); } continue; }
+            cur.clear();
+        }
+        let tt = t.trim_start();
+        let public = tt.starts_with("pub fn ") || tt.starts_with("pub async fn ");
+        // methods of a trait impl are public without the keyword
+        let trait_method = cur.contains(" for ") && (tt.starts_with("fn ") || tt.starts_with("async fn ")) && cur.starts_with("Default");
+        if public || trait_method {
+            let rest = tt.trim_start_matches("pub ").trim_start_matches("async ").trim_start_matches("fn ");
+            let name: String = rest.chars().take_while(|c| c.is_alphanumeric() || *c == '_').collect();
+            let full = format!("{}::{}", cur, name);
+            if !name.is_empty() && !names.contains(&full) {
+                names.push(full);
+            }
+        }
+    }
+    names
+}
+
+fn entry_point_audit(out: &mut Out) -> Vec<String> {
+    let found = source_entry_points();
+    let mut missing = vec![];
+    for f in &found {
+        if !DRIVEN.contains(&f.as_str()) && !NOT_DRIVEN_BECAUSE.iter().any(|(n, _)| n == f) {
+            out.count(&format!("entry.NOT_DRIVEN.{}", f));
+            missing.push(f.clone());
+        }
+    }
+    out.add("entry.points_in_source", found.len() as u64);
+    out.extra.insert("not_driven".into(), serde_json::json!(missing));
+    out.extra.insert("driven_but_gone".into(), serde_json::json!(DRIVEN.iter().filter(|d| !found.iter().any(|f| f == *d)).collect::<Vec<_>>()));
+    if !missing.is_empty() {
+        eprintln!("fam_transfer: public entry points of src/stream.rs NOT DRIVEN by this harness: {:?}", missing);
+    }
+    missing
 }
 
 // ------------------------------------------------------------------------------------------
@@ -2308,7 +2653,19 @@ fn run_random(ex: &mut Exec, out: &mut Out, rng: &mut Rng, histories: usize, max
     let ext = [0u64, 1, u64::MAX];
     let thorough = histories > 1000;
     for hno in 0..histories {
-        let line = if hno < 9 {
+        if out.oracle_failures >= MAX_ORACLE_FAILURES {
+            out.count("stopped_early.random");
+            return;
+        }
+        if SEARCH_DEADLINE.get().map(|d| Instant::now() > *d).unwrap_or(false) {
+            out.count("stopped_early.search_budget");
+            return;
+        }
+        let rich = hno >= 12 && hno % 3 != 0 && rng.chance(1, 6);
+        let line = if rich {
+            // room for the prelude's chunks (1-3 wire bytes each), from "just enough" to unbounded
+            format!("new {} {} {}", *k, gen_window(rng), *rng.pick(&[24u64, 40, 64, 200, 2000, u64::MAX]))
+        } else if hno < 9 {
             format!("new {} {} {}", *k, ext[hno / 3], ext[hno % 3])
         } else if hno < 12 {
             format!("newdef {} {}", *k, ext[hno - 9])
@@ -2318,6 +2675,34 @@ fn run_random(ex: &mut Exec, out: &mut Out, rng: &mut Rng, histories: usize, max
         let (obs, nt) = exec_line(ex, out, &line);
         out.case(&line, &obs, nt);
         let looped = hno % 3 == 0;
+        // (q) one free-form history in 6 starts with 12-40 chunks already in the ring (small bodies, logical != wire
+        // lengths; in the release profile, where that is legal, in a non-sorted order of offsets), so that resumes,
+        // evictions of many chunks at once, cancels, advances and contract panics happen on a full ring as well
+        if rich {
+            let n = rng.range(12, 40);
+            let mut off = if rng.chance(1, 4) { lattice(rng, &[0]) >> 1 } else { 0 };
+            out.count("rich_prelude.histories");
+            for j in 0..n {
+                let blen = rng.range(1, 3) as usize;
+                let body = rng.bytes(blen);
+                let dlen = rng.range(0, 4);
+                let unsorted = !cfg!(debug_assertions) && j > 0 && rng.chance(1, 3);
+                let o = if unsorted { off.wrapping_sub(rng.range(1, 40)) } else { off };
+                let op = Op::Push(o, dlen, false, body);
+                let line = op.line(&k.to_string());
+                *k += 1;
+                out.begin(&line);
+                let (obs, nt) = exec_line(ex, out, &line);
+                out.case(&line, &obs, nt);
+                off = match o.checked_add(dlen) {
+                    Some(x) => x,
+                    None => break,
+                };
+                if ex.ctl.poisoned {
+                    break;
+                }
+            }
+        }
         let mut prod = Producer { grant: None, pushed: false, next_off: 0 };
         let n = rng.range(max_len / 4, max_len);
         for _ in 0..n {
@@ -2392,6 +2777,13 @@ fn main() {
     let mut rng = Rng::new(args.seed);
     out.config(&format!("mode {}", mode_name()));
     out.extra.insert("build_profile".into(), serde_json::json!(mode_name()));
+    start_call_monitor(&args.out);
+    if std::env::args().any(|a| a == "--check-entry-points") {
+        let missing = entry_point_audit(&mut out);
+        println!("entry points of src/stream.rs: {:?}\nnot driven: {:?}", source_entry_points(), missing);
+        std::process::exit(if missing.is_empty() { 0 } else { 1 });
+    }
+    entry_point_audit(&mut out);
     let mut ex = Exec { ctl: Ctl::new(0, 0), hist: vec![format!("mode {}", mode_name()), "new 0 0 0".into()], twin_now: false };
     let mut k: u64 = 0;
 
@@ -2420,6 +2812,7 @@ fn main() {
 
     // the watchdog scenario needs seconds of wall-clock (the code floors the tick at 1 s): run it beside the rest
     let wd_thread = if family == "credit" { Some(std::thread::spawn(watchdog_scenario)) } else { None };
+    THOROUGH.store(args.thorough() && !args.out.to_string_lossy().ends_with("-search"), std::sync::atomic::Ordering::Relaxed);
     let sinks_thread = std::thread::spawn(sinks_scenario);
 
     // corpus: F3 (DESIGN.md §9) first
@@ -2430,7 +2823,15 @@ fn main() {
         out.case(line, &obs, nt);
     }
 
-    let thorough = args.thorough();
+    // `check` re-runs the family with the thorough generators when a proof or the correspondence broke and the quick
+    // run found no failing input (out dir `…-search`): that search is bounded here — thorough random histories and
+    // scenarios, the quick enumerations, and a wall-clock budget — so that a broken tree is reported within minutes
+    let search = args.out.to_string_lossy().ends_with("-search");
+    if search {
+        let _ = SEARCH_DEADLINE.set(Instant::now() + Duration::from_secs(100));
+        out.count("search_run");
+    }
+    let thorough = args.thorough() && !search;
     let enums: Vec<String> = if family == "credit" {
         out.rule = "exhaustive: every op sequence of length <= 4 over alphabet c11 (26 ops: sent 1-3, acks file 0/1 x off 0-3, cancel with reason r0 and with the empty string, advance 0/1, resumes, credit 1-3 with window 2, reconnect, 2 pushes), length <= 7 over the 10-op alphabet c11s (and <= 5 under windows 0, 1, 3, 2^64-1 with capacity 0) and length <= 5 over the 12-op alphabet c11r (cancel with 8 reason strings: r0, the watchdog's \"transfer idle\", the empty string, blanks \" \\t\\n\", 65537 x 'x', non-ASCII incl. a 4-byte scalar, a NUL, \" Transfer Idle \"; credit, reconnect, advance, resume) (thorough: <= 5 / <= 7 / <= 6); random: the first 12 histories cross window and capacity in {0, 1, 2^64-1} (and `new`); one call in 40 is repeated 2-256 times back to back (thorough: up to 1000); cancel reasons drawn from r0-r2 and (one third) those edge strings; histories of <= 200 ops over the 64-bit boundary lattice (values near sent/acked/window, 2^32, 2^48, 2^63, 2^64-k), hostile acks (future, wrong file, u64::MAX), oversized chunks, one third following the documented producer loop. Distinct by op line; non-trivial = the op changed the observable state or returned something other than unit/timeout".into();
         if thorough {
@@ -2474,11 +2875,15 @@ fn main() {
         }
     };
     for line in enums {
+        if out.oracle_failures >= MAX_ORACLE_FAILURES {
+            out.count("stopped_early.enum");
+            break;
+        }
         out.begin(&line);
         exec_enum(&mut out, &line);
     }
     let ring_bias = family == "ring";
-    let (histories, max_len) = if thorough { (3000, 200) } else { (600, 200) };
+    let (histories, max_len) = if thorough || search { (3000, 200) } else { (600, 200) };
     run_random(&mut ex, &mut out, &mut rng, histories, max_len, ring_bias, &mut k);
 
     if let Some(h) = wd_thread {
@@ -2503,6 +2908,9 @@ fn main() {
     let (t_reps, t_budget, g_n, g_reps, g_budget) = if thorough { (60_000, 1000, 600, 1500, 100) } else { (12_000, 450, 110, 300, 25) };
     let mut ci = 0;
     for spec in conc_targeted(ring_bias) {
+        if out.oracle_failures >= MAX_ORACLE_FAILURES {
+            break;
+        }
         let line = format!("conc q{} {}", ci, spec);
         ci += 1;
         out.begin(&line);
@@ -2513,7 +2921,7 @@ fn main() {
     let g_wall = Duration::from_secs(if thorough { 40 } else { 9 });
     let g_t0 = Instant::now();
     for _ in 0..g_n {
-        if g_t0.elapsed() > g_wall {
+        if g_t0.elapsed() > g_wall || out.oracle_failures >= MAX_ORACLE_FAILURES {
             out.count("conc.generated_specs_skipped_wall_budget");
             continue;
         }
